@@ -124,6 +124,11 @@ pub fn gen_typed_cells(r: &mut Rng, ty: &str, class: &str, n: usize, pattern: &s
 /// facts about a push sequence that the known-finding signatures refer to (mirrors the KnownClass
 /// predicates of the Coq statements)
 pub struct Shape {
+    /// rows in the buffer
+    pub len: usize,
+    /// byte length of the null bitmap, if the buffer has one (BitVecMut::set grows it lazily, so
+    /// it ends with the byte of the last non-NULL cell)
+    pub bitmap_bytes: Option<usize>,
     pub int_min_is_i64_min_and_max_is_zero: bool,
     pub increasing_step_overflows: bool,
     pub null_after_mixed: bool,
@@ -143,7 +148,27 @@ pub fn shape_of(ops: &[Op]) -> Shape {
     let mut len = 0usize;
     let mut ints: Vec<i64> = vec![]; // raw data of the Int buffer incl. placeholders
     let mut null_after_mixed = false;
+    let mut bitmap: Option<usize> = None;
     for op in ops {
+        // the bitmap: created when values arrive in an empty buffer that already has rows, or when
+        // NULLs arrive in a non-empty buffer; afterwards it grows to the byte of every value pushed
+        match op {
+            Op::Nulls(_) => {
+                if k != K::Empty && bitmap.is_none() {
+                    bitmap = Some(len.div_ceil(8));
+                }
+            }
+            _ => {
+                if k == K::Empty && len > 0 {
+                    bitmap = Some(len / 8);
+                }
+                if let Some(b) = bitmap {
+                    if op.count() > 0 {
+                        bitmap = Some(b.max((len + op.count() - 1) / 8 + 1));
+                    }
+                }
+            }
+        }
         match op {
             Op::Ints(xs, _) => {
                 match k {
@@ -183,6 +208,8 @@ pub fn shape_of(ops: &[Op]) -> Shape {
     let mx = ints.iter().max().cloned();
     let step_overflow = ints.windows(2).any(|w| (w[1] as i128 - w[0] as i128) > i64::MAX as i128);
     Shape {
+        len,
+        bitmap_bytes: bitmap,
         int_min_is_i64_min_and_max_is_zero: is_int && mn == Some(i64::MIN) && mx == Some(0),
         increasing_step_overflows: is_int && step_overflow,
         null_after_mixed,
@@ -196,8 +223,25 @@ pub fn shape_of(ops: &[Op]) -> Shape {
     }
 }
 
-fn shape_tag(s: &Shape) -> String {
+impl Shape {
+    /// the streamed read of the bitmap section starts at byte (k * batch_size) / 8 for batch k; the
+    /// last batch starts beyond the end of a bitmap that stops early (trailing NULLs)
+    pub fn bitmap_shorter_than_stream_offset(&self, batch_size: usize) -> bool {
+        match self.bitmap_bytes {
+            Some(l) if self.len > batch_size => {
+                let kmax = self.len.div_ceil(batch_size) - 1;
+                (kmax * batch_size).div_ceil(8) > l
+            }
+            _ => false,
+        }
+    }
+}
+
+pub fn shape_tag(s: &Shape, batch_size: usize) -> String {
     let mut t = vec![];
+    if s.bitmap_shorter_than_stream_offset(batch_size) {
+        t.push("bitmap-shorter-than-stream-offset");
+    }
     if s.int_min_is_i64_min_and_max_is_zero {
         t.push("min=i64::MIN,max=0");
     }
@@ -302,7 +346,7 @@ impl Suite for ColBuf {
                     model_input: Some(model_input),
                     impl_out: Some(Sx::l(vec![Sx::a("panic"), Sx::a(panic_class(&msg))])),
                     oracle: Some(format!("building the column panicked at {}: {}", file, msg)),
-                    signature: Some(format!("finalize-panic:{}:{}:{}", file, skeleton(&msg), shape_tag(&sh))),
+                    signature: Some(format!("finalize-panic:{}:{}:{}", file, skeleton(&msg), shape_tag(&sh, batch_size))),
                     nontrivial: nt,
                 });
                 return outs;
@@ -322,7 +366,7 @@ impl Suite for ColBuf {
                     sh.final_kind,
                     comp
                 )),
-                Some(format!("finalize-length-mismatch:{}:{}", sh.final_kind, shape_tag(&sh))),
+                Some(format!("finalize-length-mismatch:{}:{}", sh.final_kind, shape_tag(&sh, batch_size))),
             )
         };
         match dump_column(built.column) {
@@ -352,7 +396,7 @@ impl Suite for ColBuf {
         match select_column(col, batch_size) {
             Ok(cells) => {
                 let diff = first_diff(&exp, &cells);
-                let sig = diff.as_ref().map(|_| format!("select-{}:{}:{}", diff_signature(&exp, &cells), sh.final_kind, shape_tag(&sh)));
+                let sig = diff.as_ref().map(|_| format!("select-{}:{}:{}", diff_signature(&exp, &cells), sh.final_kind, shape_tag(&sh, batch_size)));
                 outs.push(Outcome {
                     model: Some("col_cells".into()),
                     model_input: Some(model_input),
@@ -367,7 +411,7 @@ impl Suite for ColBuf {
                 model_input: None,
                 impl_out: Some(Sx::l(vec![Sx::a(&kind), Sx::a(skeleton(&msg))])),
                 oracle: Some(format!("SELECT on the finished column failed ({} at {}): {}", kind, file, msg)),
-                signature: Some(format!("select-{}:{}:{}:{}:{}", kind, file, skeleton(&msg), sh.final_kind, shape_tag(&sh))),
+                signature: Some(format!("select-{}:{}:{}:{}:{}", kind, file, skeleton(&msg), sh.final_kind, shape_tag(&sh, batch_size))),
                 nontrivial: nt,
             }),
         }
